@@ -15,7 +15,7 @@ CONSUMERS = {CUR + "advance", "Pistache::match_raw", "Pistache::match_string", "
 SHORT_INPUT_FALSE = ["Pistache::match_raw", "Pistache::match_string", "Pistache::match_literal", "Pistache::match_until"]
 INCREMENTAL = {PR + "BodyStep::apply"}
 MSG_CLASSES = [H + "Message", H + "Request", H + "Response"]
-IDEMPOTENT_HOW = {"assign", "whole", "init", "call:insert", "call:clear", "call:erase", "call:operator=", "call:swap", "call:reserve", "call:reset"}
+IDEMPOTENT_HOW = {"assign", "whole", "init", "alias-assign", "call:insert", "call:clear", "call:erase", "call:operator=", "call:swap", "call:reserve", "call:reset"}
 
 
 def again(ev):
@@ -102,7 +102,9 @@ def run(ck):
                 if how == "call:insert" and ev["k"] == "call" and not lib.is_assoc_call(ev) and strip_tmpl(ev.get("callee") or "").startswith("std::"):
                     ok = False      # insert into a sequence container accumulates
                 ck.ob("C01-R2", "%s: %s %s" % (short, fld.replace(H, ""), how), ok, ev.loc, ev.func,
-                      "idempotent under re-parse" if ok else "%s on message state is repeated after every roll-back (accumulates across re-parses)" % how, path=chain)
+                      "idempotent under re-parse" if ok else
+                      ("a stored value is replaced by one computed from itself (%s): every re-parse after a roll-back applies it again" % (ev.get("t") or "")[:60]
+                       if how == "alias-assign-self" else "%s on message state is repeated after every roll-back (accumulates across re-parses)" % how), path=chain)
 
         # ---- R5 ----
         def writes_msg(ev):
@@ -249,6 +251,60 @@ def run(ck):
                               % ((t.get("cond") or "")[:50], t.get("l"), hits[0].get("l")))
         ck.ob("C01-R6", "%s/errors-independent-of-cut" % short, not probs6, f.loc, f, "; ".join(sorted(set(probs6))[:2]) or
               "no error is raised on a matcher failure that a longer read could turn into a match")
+
+    # R6 (look-ahead): StreamCursor::eol() needs two buffered bytes and answers false when they have not all arrived.  In the
+    # incremental parser code a "not at end of line" answer may therefore only lead on to something that copes with exhausted input
+    # (advance, another look at eof()/remaining(), "need more data", an error) -- never straight to a return that completes the
+    # message or the chunk: the verdict would depend on whether the CRLF was in the same read
+    def completes(ev):
+        if ev["k"] != "return" or again(ev):
+            return False
+        c_ = ev.get("const")
+        if isinstance(c_, str) and c_.startswith("e:"):
+            return c_.rsplit("::", 1)[-1] in ("Done", "Next", "Final", "Complete")
+        return False
+    nla = 0
+    for f in prog.funcs.values():
+        if not f.file.endswith("/common/http.cc") or not f.blocks or not [p_ for p_ in f.params if "StreamCursor" in p_["type"]]:
+            continue
+        fdom = cfg.dominators(f)
+        for b in f.blocks.values():
+            t = b.term
+            if not t or len(b.succs) != 2 or t.get("cmp") or ("c:" + CUR + "eol") not in (t.get("leafrefs") or t.get("refs") or []):
+                continue
+            k_not = 0 if t.get("neg") else 1        # the edge on which eol() answered false
+            start = b.succs[k_not]
+            if start is None:
+                continue
+            nla += 1
+            hits = []
+
+            def step_la(st, ev):
+                if again(ev) or is_raise(ev) or ev["k"] == "throw":
+                    return None
+                if ev["k"] == "return" and (ev.get("const") is False or (isinstance(ev.get("const"), str) and ev["const"].endswith("::Incomplete"))):
+                    return None
+                if ev["k"] == "call" and (ev.get("callee") or "") in (CUR + "advance", CUR + "eof", CUR + "remaining"):
+                    return None
+                if completes(ev):
+                    hits.append(ev)
+                    return None
+                return st
+            cfg.run_automaton(f, 0, step_la, start=start)
+            # two bytes known to be buffered: a dominating remaining() bail-out with no consuming call in between
+            avail = False
+            for x in f.blocks.values():
+                if x.term and ("c:" + CUR + "remaining") in (x.term.get("refs") or []) and x.id in fdom.get(b.id, ()) and x.id != b.id:
+                    between = [e_ for e_ in cfg.events_from_block(f, x.id) if e_["k"] == "call" and (e_.get("callee") or "") in CONSUMERS and
+                               any(e2 is b.elems[-1] for e2 in cfg.events_after(f, e_))] if b.elems else []
+                    if not between:
+                        avail = True
+            ok_la = not hits or avail
+            ck.ob("C01-R6", "%s/eol-lookahead@%s" % (f.base.replace(PR, ""), t.get("l")), ok_la, "%s:%s" % (f.file, t.get("l")), f,
+                  "a 'not at end of line' answer leads on to advance / a bounds test / need-more-data / an error" if ok_la else
+                  "`%s` answers false both for other bytes and for a CRLF that has not arrived yet, and that answer leads straight to the "
+                  "completing return at line %s: whether the message is complete depends on where the read ended" % ((t.get("cond") or "")[:40], hits[0].get("l")))
+    ck.require(nla >= 3, "eol() look-ahead decisions found in the parser: %d" % nla)
 
     # premise of R6: the listed matchers do return false on short input
     for mname in SHORT_INPUT_FALSE:
